@@ -51,6 +51,8 @@ type Ctl struct {
 	tick      time.Duration
 	// gates
 	gated   map[string]bool          // labels that stop at gates
+	multi    map[string]bool
+	parkedAt map[string][]chan struct{}
 	parked  map[string]chan struct{} // label -> release channel
 	where   map[string]string
 	txToken chan struct{} // serialises transactions
@@ -190,9 +192,44 @@ func (c *Ctl) logOnly(ctx context.Context, kind, q string) {
 
 // ---- gates ----
 func (c *Ctl) Gate(label string, on bool) { c.mu.Lock(); c.gated[label] = on; c.mu.Unlock() }
+
+// GateMulti gates a label under which several goroutines run (the goroutines of one stream): each
+// parks separately, keyed by where it parked; ParkedAt / ReleaseAt address them.
+func (c *Ctl) GateMulti(label string, on bool) {
+	c.mu.Lock()
+	if c.multi == nil {
+		c.multi, c.parkedAt = map[string]bool{}, map[string][]chan struct{}{}
+	}
+	c.multi[label] = on
+	c.mu.Unlock()
+}
+func (c *Ctl) ParkedAt(l, where string) int {
+	c.mu.Lock()
+	defer c.mu.Unlock()
+	return len(c.parkedAt[l+"|"+where])
+}
+func (c *Ctl) ReleaseAt(l, where string) bool {
+	c.mu.Lock()
+	q := c.parkedAt[l+"|"+where]
+	if len(q) == 0 {
+		c.mu.Unlock()
+		return false
+	}
+	c.parkedAt[l+"|"+where] = q[1:]
+	c.mu.Unlock()
+	close(q[0])
+	return true
+}
 func (c *Ctl) park(ctx context.Context, where string) {
 	l := labelOf(ctx)
 	c.mu.Lock()
+	if l != "" && c.multi[l] {
+		ch := make(chan struct{})
+		c.parkedAt[l+"|"+where] = append(c.parkedAt[l+"|"+where], ch)
+		c.mu.Unlock()
+		<-ch
+		return
+	}
 	if l == "" || !c.gated[l] {
 		c.mu.Unlock()
 		return
